@@ -1076,7 +1076,33 @@ def iter_next(it, cur, term, caller, depth, back=False):
         if back:
             raise Unsupported("next_back on RangeFrom")
         return Adt(cur.name, 0, [bv.binop("Add", s0, s0.like(val=1))]), some(s0)
+    if isinstance(cur, Adt) and cur.name.endswith("RangeInclusive") and len(cur.fields) == 3:
+        # (start, end, exhausted)
+        s, e, ex = cur.fields
+        if not (isinstance(ex, Int) and ex.is_conc()):
+            raise Undecided("RangeInclusive with undetermined exhaustion flag")
+        if ex.val:
+            return cur, none()
+        le = bv.compare("Le", s, e)
+        eq = bv.compare("Eq", s, e)
+        if (le is None or eq is None) and it.h is not None:
+            le = it.h.unknown_compare(it, "Le", s, e) if le is None else le
+            eq = it.h.unknown_compare(it, "Eq", s, e) if eq is None else eq
+        if le is None or eq is None:
+            raise Undecided("inclusive range bound %r <= %r" % (s, e))
+        if not le:
+            return cur, none()
+        one = s.like(val=1)
+        if back:
+            if eq:
+                return Adt(cur.name, 0, [s, e, mkbool(True)]), some(e)
+            return Adt(cur.name, 0, [s, bv.binop("Sub", e, one), ex]), some(e)
+        if eq:
+            return Adt(cur.name, 0, [s, e, mkbool(True)]), some(s)
+        return Adt(cur.name, 0, [bv.binop("Add", s, one), e, ex]), some(s)
     if isinstance(cur, Adt):  # Range<int>
+        if len(cur.fields) != 2:
+            raise Unsupported("iteration over %s" % cur.name)
         s, e = cur.fields
         lt = bv.compare("Lt", s, e)
         if lt is None and it.h is not None:
